@@ -2,3 +2,8 @@ chk("C05", "exploration",
     "Generated operands (symbolic boundary classes + random, lengths 0..20 words, every modulus class, documented aliasings) for every function of the ww/zz/zm/gfp/qr/pp/gf2 layers are executed in the 64-bit and the 32-bit word build with exact-size buffers and compared with Python int / GF(2)[x] arithmetic; all 16-bit helper inputs and all polynomials of degree <= 16 are enumerated. Exploration, not proof: it decides the property on the cases generated.",
     "Trusts Python int/pow/gcd and the 60-line GF(2)[x] reference (self-tested); the 32-bit word build is obtained with -U__SIZEOF_INT128__; sanitizer = ASan + bounds, library asserts enabled.",
     "property-based differential testing against an integer reference model (Hypothesis -> b2x executor), exhaustive enumeration of small sub-domains", "4.5")
+chk("C20", "model_checking",
+    "The automaton is finite: all 16x4x9 transitions are extracted by calling btokPwdTransition, and every clause of the property is a small history monitor explored in product with that graph by complete BFS from every PIN state with no authentication; a violation is reported as a shortest event path. Random long histories are additionally executed step by step to validate that the function has no hidden state.",
+    "Assumes btokPwdTransition is a pure function of (pin, auth, event) (validated on generated histories) and that the clause monitors in props/c20.py transcribe the property text and comments 2-4 of btok.h faithfully.",
+    "exhaustive enumeration of the implementation's transition graph x rule monitors (generated-input search degenerates to complete enumeration), plus stateful Hypothesis walks", "4.20")
+CHECKS["C20"]["engine"] = "b2x+enumeration"
